@@ -3,10 +3,10 @@ def jobs(tier):
     js = []
     # (c) manual encodings: MSP430 core
     for lo in range(0, 12, 2):
-        js.append(vp.Job("msp430_enc.two.op%d" % lo, "msp430_enc.cpp", {"KIND": 1, "OPLO": lo, "OPN": 2}, max_paths=400000, timeout=420 if tier == "quick" else 2400, allow_partial=True, min_completed=20))
-    js.append(vp.Job("msp430_enc.one", "msp430_enc.cpp", {"KIND": 2}, max_paths=400000, timeout=420 if tier == "quick" else 2400, allow_partial=True, min_completed=20))
+        js.append(vp.Job("msp430_enc.two.op%d" % lo, "msp430_enc.cpp", {"KIND": 1, "OPLO": lo, "OPN": 2}, max_paths=400000, timeout=420 if tier == "quick" else 900, allow_partial=True, min_completed=20))
+    js.append(vp.Job("msp430_enc.one", "msp430_enc.cpp", {"KIND": 2}, max_paths=400000, timeout=420 if tier == "quick" else 900, allow_partial=True, min_completed=20))
     # (a)/(b) encode -> decode -> encode fixpoint and tiling: the roundtrip harness (shared with C07), RV32/RVC from the bytes side
-    for j in C07.jobs(tier, ["riscv"] if tier == "quick" else ["riscv", "msp430", "6502", "z80", "8051", "avr8", "stm8"]):
+    for j in C07.jobs(tier, ["riscv"] if tier == "quick" else ["riscv", "msp430"]):
         js.append(j)
     # (a)/(b) from the assembler side: instruction forms with a symbolic operand
     from cpus import CPUS
